@@ -194,8 +194,9 @@ def run_tlc(module, cfg, scratch, data_files=None, workers=16, timeout=1800, sim
     m = re.search(r"(\d+) states generated, (\d+) distinct states found", text)
     if m:
         res.generated, res.distinct = int(m.group(1)), int(m.group(2))
-    res.violated = re.findall(r"Invariant (\S+) is violated", text) + re.findall(r"Action property (\S+) is violated", text)
-    res.errors = [l for l in other if l.startswith("Error:") and "is violated" not in l and "behavior up to this point" not in l]
+    res.violated = re.findall(r"Invariant (\S+) is violated", text) + re.findall(r"Action property (\S+) is violated", text) \
+        + re.findall(r"The invariant of (\S+) is equal to FALSE", text)      # a constant-level invariant is evaluated before the search starts
+    res.errors = [l for l in other if l.startswith("Error:") and "is violated" not in l and "behavior up to this point" not in l and "is equal to FALSE" not in l]
     res.ok = ("Model checking completed. No error has been found." in text) or (simulate and not res.errors and not res.violated)
     if keep_raw:
         res.raw = text
